@@ -137,7 +137,7 @@ fn a_history(seed: u64, k: u64, sink: &mut Sink) -> Run {
 pub fn records(seed: u64, nhist: u64) -> Vec<Value> {
     let mut out = vec![];
     let mut sink = Sink::new(Box::new(std::io::sink()));
-    let versions = ["0.4.18", "0.4.20", "1.0.0", "1.0.1", "1.1.0", "2.0.0", "1.0.0-rc1", "0.4.19", "garbage", "1.0", ""];
+    let versions = ["0.4.18", "0.4.20", "1.0.0", "1.0.1", "1.1.0", "2.0.0", "1.0.0-rc1", "0.4.19", "0.4.17", "0.3.0", "0.9.9", "1.0.0+build", "garbage", "1.0", ""];
     let names = ["staking", "treasury", "other"];
     for k in 0..nhist {
         let base = a_history(seed, k, &mut sink);
